@@ -95,8 +95,8 @@ pub fn parent_of(d: u8) -> u8 {
 }
 
 // ---- slots ---------------------------------------------------------------------------------
-// cache dir : 0 "a", 1 "b", 2 ".app" (application dot-file), 3 "sub" (stray subdirectory), 4 "c"
-// temp dir  : 0 "t0", 1 "t1", 2 "t2", 3 "u0" (caller-supplied source), 4 "old" (debris)
+// cache dir : 0 "ka", 1 "kb", 2 ".p" (application dot-file), 3 "sd" (stray subdirectory), 4 "kc"
+// temp dir  : 0 "t0", 1 "t1", 2 "t2", 3 "u0" (caller-supplied source), 4 "o0" (old debris)
 // ext dir   : 0 "u0", 1 "u1"
 pub const S_A: u8 = 0;
 pub const S_B: u8 = 1;
@@ -109,28 +109,34 @@ pub const S_T2: u8 = 2;
 pub const S_U0: u8 = 3;
 pub const S_OLD: u8 = 4;
 
-pub fn slot_name(kind: u8, s: u8) -> &'static [u8] {
+/// All names have the same length (2 bytes) so that a path built from a symbolic slot has a
+/// syntactically constant length (DESIGN.md §1, rule 3).
+pub fn slot_name(kind: u8, s: u8) -> [u8; 2] {
     match kind {
         KIND_CACHE => match s {
-            0 => b"a",
-            1 => b"b",
-            2 => b".app",
-            3 => b"sub",
-            _ => b"c",
+            0 => *b"ka",
+            1 => *b"kb",
+            2 => *b".p",
+            3 => *b"sd",
+            _ => *b"kc",
         },
         KIND_TEMP => match s {
-            0 => b"t0",
-            1 => b"t1",
-            2 => b"t2",
-            3 => b"u0",
-            _ => b"old",
+            0 => *b"t0",
+            1 => *b"t1",
+            2 => *b"t2",
+            3 => *b"u0",
+            _ => *b"o0",
         },
         _ => match s {
-            0 => b"u0",
-            _ => b"u1",
+            0 => *b"u0",
+            _ => *b"u1",
         },
     }
 }
+
+pub const KEY_A: &str = "ka";
+pub const KEY_B: &str = "kb";
+pub const KEY_C: &str = "kc";
 
 // ---- state ---------------------------------------------------------------------------------
 #[derive(Clone, Copy)]
@@ -265,6 +271,7 @@ pub struct Kfs {
     pub env_rebound: bool,
     pub evicted_by_us: u8, // names removed by our unlink in a cache dir
     pub tmp_seq: u8,
+    pub vanish_a_at_dstat: bool, // a peer unlinks key `a` between readdir and stat
 }
 
 pub static mut K: Kfs = Kfs {
@@ -293,6 +300,7 @@ pub static mut K: Kfs = Kfs {
     env_rebound: false,
     evicted_by_us: 0,
     tmp_seq: 0,
+    vanish_a_at_dstat: false,
 };
 
 pub fn k() -> &'static mut Kfs {
@@ -338,7 +346,7 @@ fn comp_eq(b: &[u8], start: usize, len: usize, lit: &[u8]) -> bool {
 fn slot_of(b: &[u8], start: usize, len: usize, kind: u8) -> u8 {
     let mut s = 0u8;
     while (s as usize) < NS {
-        if (kind != KIND_EXT || s < 2) && comp_eq(b, start, len, slot_name(kind, s)) {
+        if (kind != KIND_EXT || s < 2) && comp_eq(b, start, len, &slot_name(kind, s)) {
             return s;
         }
         s += 1;
@@ -461,8 +469,10 @@ pub fn path_of(d: u8, slot: u8) -> PathBuf {
         v.extend_from_slice(b"/.kismet_temp");
     }
     if slot != NONE {
+        let nm = slot_name(dir_kind(d), slot);
         v.push(b'/');
-        v.extend_from_slice(slot_name(dir_kind(d), slot));
+        v.push(nm[0]);
+        v.push(nm[1]);
     }
     PathBuf::from(OsString::from_vec(v))
 }
@@ -668,26 +678,11 @@ fn make_metadata(is_dir: bool, n: &Inode) -> Metadata {
     let mut buf = [0u8; L::META_SIZE];
     let o = L::STAT_OFF;
     let mode: u32 = if is_dir { 0o040755 } else { 0o100000 | (n.mode & 0o7777) };
-    let put32 = |buf: &mut [u8; L::META_SIZE], off: usize, v: u32| {
-        let b = v.to_le_bytes();
-        buf[off] = b[0];
-        buf[off + 1] = b[1];
-        buf[off + 2] = b[2];
-        buf[off + 3] = b[3];
-    };
-    let put64 = |buf: &mut [u8; L::META_SIZE], off: usize, v: i64| {
-        let b = v.to_le_bytes();
-        let mut i = 0;
-        while i < 8 {
-            buf[off + i] = b[i];
-            i += 1;
-        }
-    };
-    put32(&mut buf, o + 24, mode);
-    put64(&mut buf, o + 72, n.at_s);
-    put64(&mut buf, o + 80, n.at_ns as i64);
-    put64(&mut buf, o + 88, n.mt_s);
-    put64(&mut buf, o + 96, n.mt_ns as i64);
+    buf[o + 24..o + 28].copy_from_slice(&mode.to_le_bytes());
+    buf[o + 72..o + 80].copy_from_slice(&n.at_s.to_le_bytes());
+    buf[o + 80..o + 88].copy_from_slice(&(n.at_ns as i64).to_le_bytes());
+    buf[o + 88..o + 96].copy_from_slice(&n.mt_s.to_le_bytes());
+    buf[o + 96..o + 104].copy_from_slice(&(n.mt_ns as i64).to_le_bytes());
     unsafe { std::mem::transmute::<[u8; L::META_SIZE], Metadata>(buf) }
 }
 
@@ -744,12 +739,13 @@ fn make_readdir(d: u8) -> ReadDir {
     unsafe { std::mem::transmute::<[u8; L::READDIR_SIZE], ReadDir>(raw) }
 }
 
-fn make_dirent(d: u8, slot: u8, is_dir: bool) -> DirEntry {
+pub fn make_dirent(d: u8, slot: u8, is_dir: bool) -> DirEntry {
     let mut raw = [0u8; L::DIRENT_SIZE];
     let bits = leaked_arc_bits().to_le_bytes();
-    let name = if slot == NS as u8 { b".kismet_temp" as &[u8] } else { slot_name(dir_kind(d), slot) };
-    let mut v: Vec<u8> = Vec::with_capacity(name.len() + 1);
-    v.extend_from_slice(name);
+    // The name is produced by the `file_name` stub from the slot id; the CString kept inside the
+    // DirEntry only has to be a droppable allocation, so it is a constant.
+    let mut v: Vec<u8> = Vec::with_capacity(2);
+    v.push(b'x');
     v.push(0);
     let bx: Box<[u8]> = v.into_boxed_slice();
     let len = bx.len();
@@ -770,7 +766,7 @@ fn make_dirent(d: u8, slot: u8, is_dir: bool) -> DirEntry {
     unsafe { std::mem::transmute::<[u8; L::DIRENT_SIZE], DirEntry>(raw) }
 }
 
-fn dirent_id(e: &DirEntry) -> (u8, u8) {
+pub fn dirent_id(e: &DirEntry) -> (u8, u8) {
     let p = e as *const DirEntry as *const u8;
     let mut b = [0u8; 8];
     let mut i = 0;
@@ -1019,24 +1015,37 @@ pub fn s_read_dir<P: AsRef<Path>>(path: P) -> io::Result<ReadDir> {
 }
 
 pub fn s_readdir_next(_rd: &mut ReadDir) -> Option<io::Result<DirEntry>> {
+    // Loop with a concrete trip count and a (possibly symbolic) cursor: at most one entry is
+    // produced per call, holes are skipped.
     let st = k();
     let d = unsafe { RD_DIR };
     let kind = dir_kind(d);
-    loop {
-        let cur = unsafe { RD_CUR };
-        if cur as usize > NS {
-            return None;
-        }
-        unsafe { RD_CUR = cur + 1 };
-        if (cur as usize) < NS {
-            let i = st.dir[d as usize].slot[cur as usize];
-            if i != NONE {
-                return Some(Ok(make_dirent(d, cur, st.ino[i as usize].is_dir)));
+    let mut cur = unsafe { RD_CUR };
+    let mut found = NONE;
+    let mut is_dir = false;
+    let mut step = 0;
+    while step <= NS {
+        if found == NONE && (cur as usize) <= NS {
+            if (cur as usize) < NS {
+                let i = st.dir[d as usize].slot[cur as usize];
+                if i != NONE {
+                    found = cur;
+                    is_dir = st.ino[i as usize].is_dir;
+                }
+            } else if kind == KIND_CACHE && st.dir[temp_of(d) as usize].exists {
+                // the .kismet_temp subdirectory shows up in its parent's listing
+                found = NS as u8;
+                is_dir = true;
             }
-        } else if kind == KIND_CACHE && st.dir[temp_of(d) as usize].exists {
-            // the .kismet_temp subdirectory shows up in its parent's listing
-            return Some(Ok(make_dirent(d, NS as u8, true)));
+            cur += 1;
         }
+        step += 1;
+    }
+    unsafe { RD_CUR = cur };
+    if found == NONE {
+        None
+    } else {
+        Some(Ok(make_dirent(d, found, is_dir)))
     }
 }
 
@@ -1049,6 +1058,13 @@ pub fn s_dirent_metadata(e: &DirEntry) -> io::Result<Metadata> {
         return Ok(dir_metadata());
     }
     let st = k();
+    if st.vanish_a_at_dstat && s == S_A && dir_kind(d) == KIND_CACHE {
+        let cur = st.dir[d as usize].slot[s as usize];
+        if cur != NONE {
+            st.ino[cur as usize].nlink -= 1;
+            st.dir[d as usize].slot[s as usize] = NONE;
+        }
+    }
     let i = st.dir[d as usize].slot[s as usize];
     if i == NONE {
         return Err(err(ENOENT));
@@ -1059,9 +1075,12 @@ pub fn s_dirent_metadata(e: &DirEntry) -> io::Result<Metadata> {
 
 pub fn s_dirent_file_name(e: &DirEntry) -> OsString {
     let (d, s) = dirent_id(e);
-    let name = if s as usize == NS { b".kismet_temp" as &[u8] } else { slot_name(dir_kind(d), s) };
     let mut v: Vec<u8> = Vec::with_capacity(16);
-    v.extend_from_slice(name);
+    // constant length, symbolic bytes (the crate never asks for the name of a subdirectory)
+    assert!((s as usize) < NS, "KV-MODEL: file_name() of the .kismet_temp entry is not modelled");
+    let nm = slot_name(dir_kind(d), s);
+    v.push(nm[0]);
+    v.push(nm[1]);
     OsString::from_vec(v)
 }
 
@@ -1373,6 +1392,14 @@ pub fn s_tempfile() -> io::Result<File> {
     Ok(make_file(f))
 }
 
+// ---- allocation -------------------------------------------------------------------------------
+/// `Vec::new()` -> `Vec::with_capacity(8)`: same abstract value, but the buffer is a real
+/// allocation instead of a dangling `NonNull` (which CBMC treats as an integer address and
+/// runs out of memory on; measured, see DESIGN.md C08).
+pub fn s_vec_new<T>() -> Vec<T> {
+    Vec::with_capacity(8)
+}
+
 // ---- randomness -----------------------------------------------------------------------------
 pub fn s_regenerate(c: &std::cell::RefCell<u64>) -> u64 {
     let r: u64 = kani::any();
@@ -1411,6 +1438,7 @@ pub fn reset() {
     st.evicted_by_us = 0;
     st.env = ENV_NONE;
     st.auto_sync = false;
+    st.vanish_a_at_dstat = false;
     let (s, ns) = any_time();
     st.now_s = s;
     st.now_ns = ns;
@@ -1569,8 +1597,180 @@ macro_rules! kfs_harness {
         #[kani::stub(tempfile::tempfile, crate::kv_kfs::s_tempfile)]
         #[kani::stub(libc::close, crate::kv_kfs::s_libc_close)]
         #[kani::stub(crate::trigger::regenerate, crate::kv_kfs::s_regenerate)]
+        #[kani::stub(std::vec::Vec::new, crate::kv_kfs::s_vec_new)]
         $(#[$m])*
         fn $name() $body
     };
 }
 pub(crate) use kfs_harness;
+
+// ---- specification-level planner ------------------------------------------------------------------
+// Used *instead of* `second_chance::Update::new` in harnesses that run `prune` end to end: the
+// real planner's sort/drain makes CBMC run out of memory on 64-byte non-Copy entries (measured).
+// Sound by composition: (i) the real planner satisfies the clock-queue specification (C08's
+// harnesses, on the real code); (ii) this function satisfies the same specification (harness
+// `c08_spec_planner_*` runs C08's oracle on it).  Classical clock queue, no sort, no memmove.
+impl<T: crate::second_chance::Entry> crate::second_chance::Update<T> {
+pub fn kv_spec_new(
+    entries: impl IntoIterator<Item = T>,
+    capacity: usize,
+) -> Self {
+    let mut queue: Vec<T> = Vec::with_capacity(4);
+    for e in entries {
+        assert!(queue.len() < 4, "KV-BOUND: spec planner handles at most 4 entries");
+        queue.push(e);
+    }
+    let n = queue.len();
+    let mut to_evict: Vec<T> = Vec::with_capacity(4);
+    let mut reprieved: Vec<T> = Vec::with_capacity(4);
+    if n <= capacity {
+        return crate::second_chance::Update { to_evict, to_move_back: reprieved };
+    }
+    let must_remove = n - capacity;
+    // first pass: pop the lowest-ranked entry until enough were evicted or the queue is empty
+    let mut round = 0;
+    while round < 4 {
+        if !queue.is_empty() && to_evict.len() < must_remove {
+            let mut best = 0;
+            let mut j = 1;
+            while j < 4 {
+                if j < queue.len() && queue[j].rank() < queue[best].rank() {
+                    best = j;
+                }
+                j += 1;
+            }
+            let e = queue.swap_remove(best);
+            if e.accessed() {
+                reprieved.push(e); // flag cleared, requeued at the back
+            } else {
+                to_evict.push(e);
+            }
+        }
+        round += 1;
+    }
+    // second pass: the requeued entries are now the front of the queue
+    let mut to_move_back: Vec<T> = Vec::with_capacity(4);
+    for e in reprieved {
+        if to_evict.len() < must_remove {
+            to_evict.push(e);
+        } else {
+            to_move_back.push(e);
+        }
+    }
+    std::mem::forget(queue);
+    crate::second_chance::Update { to_evict, to_move_back }
+}
+}
+
+// ---- specification-level prune -------------------------------------------------------------------
+// Used instead of `raw_cache::prune` in operation-level harnesses (the real prune is decided in
+// its own harnesses: listing, planner, apply_update, and the MIR-level glue).  Deliberately LOOSER
+// than Second Chance: when the directory holds more cached files than `capacity`, any choice of
+// n - capacity victims among the cached files is removed and any of the survivors may be
+// re-queued.  Callers' properties (validity at every boundary, success, consumption, order of
+// maintenance and publication) do not depend on which entries are chosen.
+pub fn spec_prune(cache_dir: PathBuf, capacity: usize) -> io::Result<(u64, usize)> {
+    let loc = classify(&cache_dir);
+    if let Some(e) = tick(C_READDIR, loc.dir, loc.slot) {
+        return Err(err(e));
+    }
+    assert!(loc.ok && loc.slot == NONE && dir_kind(loc.dir) == KIND_CACHE, "KV-C16: maintenance targets a cache directory");
+    let st = k();
+    let d = loc.dir as usize;
+    if !st.dir[d].exists {
+        return Err(err(ENOENT));
+    }
+    let keys = [S_A, S_B, S_C];
+    let mut n: usize = 0;
+    let mut j = 0;
+    while j < 3 {
+        if st.dir[d].slot[keys[j] as usize] != NONE {
+            n += 1;
+        }
+        j += 1;
+    }
+    let count = n as u64;
+    if n <= capacity {
+        return Ok((count, 0));
+    }
+    let must = n - capacity;
+    let mut evicted = 0usize;
+    j = 0;
+    while j < 3 {
+        let s = keys[j];
+        let remaining_candidates = 3 - j; // keys j.. still undecided
+        let cur = st.dir[d].slot[s as usize];
+        if cur != NONE && evicted < must {
+            // evict this one, or leave it for later if enough candidates remain
+            let mut later = 0usize;
+            let mut q = j + 1;
+            while q < 3 {
+                if st.dir[d].slot[keys[q] as usize] != NONE {
+                    later += 1;
+                }
+                q += 1;
+            }
+            let take: bool = kani::any();
+            if take || later < must - evicted {
+                if let Some(e) = tick(C_UNLINK, loc.dir, s) {
+                    return Err(err(e));
+                }
+                // may have vanished meanwhile: tolerated
+                let now = st.dir[d].slot[s as usize];
+                if now != NONE {
+                    st.ino[now as usize].nlink -= 1;
+                    st.dir[d].slot[s as usize] = NONE;
+                    st.dir[d].mutated = true;
+                    st.evicted_by_us += 1;
+                }
+                evicted += 1;
+            }
+        }
+        let _ = remaining_candidates;
+        j += 1;
+    }
+    // survivors may be moved to the back of the queue
+    j = 0;
+    while j < 3 {
+        let s = keys[j];
+        if st.dir[d].slot[s as usize] != NONE && kani::any() {
+            let (ns_, nn) = advance_clock();
+            if let Some(e) = tick(C_UTIMES, loc.dir, s) {
+                return Err(err(e));
+            }
+            let now = st.dir[d].slot[s as usize];
+            if now != NONE {
+                let (ms, mns) = trunc(ns_, nn);
+                let (as_, ans) = trunc(ns_.saturating_sub(120), nn);
+                st.ino[now as usize].mt_s = ms;
+                st.ino[now as usize].mt_ns = mns;
+                st.ino[now as usize].at_s = as_;
+                st.ino[now as usize].at_ns = ans;
+            }
+        }
+        j += 1;
+    }
+    Ok((count - evicted as u64, evicted))
+}
+
+/// Index of the first trace entry of kind `kind` (TRACE_LEN when absent).
+pub fn first_call(kind: u8) -> usize {
+    let st = k();
+    let mut i = 0;
+    while i < TRACE_LEN {
+        if i < st.trace_n as usize && st.trace_kind[i] == kind {
+            return i;
+        }
+        i += 1;
+    }
+    TRACE_LEN
+}
+
+/// A NamedTempFile the caller created somewhere else (used when there is no write cache).
+pub fn fabricate_named_temp(d: u8, s: u8) -> tempfile::NamedTempFile {
+    let st = k();
+    let i = new_temp_inode(true);
+    st.dir[d as usize].slot[s as usize] = i;
+    let f = alloc_fd(i, true);
+    tempfile::NamedTempFile::from_parts(make_file(f), tempfile::TempPath::from_path(path_of(d, s)))
+}
